@@ -474,6 +474,11 @@ AcceptCtor(call, o) ==
        /\ (Has(o.v, "id_const") => o.v.id_const = CtorId(name, call))
        /\ (Has(o.v, "place") => \A i \in 1..Len(o.v.place) : o.v.place[i].ok)       \* byte view obtainable wherever placed
        /\ (Has(o.v, "as_bytes") => o.v.as_bytes = o.v.sv)
+       \* read-back of the framebuffer type through buffer_type()
+       /\ (Has(o.v, "rb_fb") =>
+             /\ o.v.rb_fb.k = "ok" /\ o.v.rb_fb.t = call.fbtype
+             /\ (call.fbtype = "rgb" => o.v.rb_fb.v = call.rgb)
+             /\ (call.fbtype = "indexed" => o.v.rb_fb.n = Len(call.palette) /\ o.v.rb_fb.at = 34))
        /\ (Has(o.v, "rb") => o.v.rb = [k |-> "ok", v |-> IF call.text # <<>> /\ call.text[Len(call.text)] = 0
                                                           THEN SubSeq(call.text, 1, FirstNul(call.text) - 1) ELSE call.text])
 C07_Accept(c, trk, call, o) ==
